@@ -34,4 +34,8 @@ def _traverse_graph_dataframe(
         inferred_paths[col] = inf_path
         inferred_states[col] = inf_state
 
-    return pd.DataFrame(inferred_series), inferred_paths, inferred_states
+    return (
+        pd.DataFrame(inferred_series, index=df.index),
+        inferred_paths,
+        inferred_states,
+    )
